@@ -153,7 +153,7 @@ class Env(gpp.UGenParameter, gpp.NodeParameter):
         'sine': 3,
         'wel': 4,
         'welch': 4,
-        'sqrt': 6,
+        'sqr': 6,
         'squared': 6,
         'cub': 7,
         'cubed': 7,
@@ -350,7 +350,9 @@ class Env(gpp.UGenParameter, gpp.NodeParameter):
         levels = levels[:]  # Ensures internal state.
         levels.insert(0, levels[0])
         return Env(
-            levels, times, 'step', release_level - 1, loop_level, offset)
+            levels, times, 'step',
+            None if release_level is None else release_level - 1,
+            loop_level, offset)
 
     @classmethod
     def cutoff(cls, release_time=0.1, level=1.0, curve='lin'):
